@@ -45,18 +45,42 @@ theorem replace_char_one (q : Char) (to v : List Char) :
 
 theorem rt_repeat_two (s : List Char) : rt_repeat s 2 = s ++ s := by simp [rt_repeat, List.replicate]
 
+/-- the quoting test, whatever the order of the alternatives of the `matches!` (or a chain of `==`) in the source -/
 theorem any_quote (v : List Char) (f : Char → Bool) (h : ∀ c, f c = (c == ',' || c == '"' || c == '\r' || c == '\n')) :
     List.any v f = needsQuote v := by
   unfold needsQuote; congr 1; funext c; exact h c
 
+/-- discharges the side condition of `any_quote`: a Boolean combination of comparisons of one character with literals -/
+macro "char_cases" : tactic => `(tactic|
+  (intro (c : Char)        -- fails cleanly on any other side goal `simp` hands to the discharger
+   by_cases h1 : c = ','
+   · subst h1; decide
+   by_cases h2 : c = '"'
+   · subst h2; decide
+   by_cases h3 : c = '\r'
+   · subst h3; decide
+   by_cases h4 : c = '\n'
+   · subst h4; decide
+   have e1 : (c == ',') = false := beq_eq_false_iff_ne.2 h1
+   have e2 : (c == '"') = false := beq_eq_false_iff_ne.2 h2
+   have e3 : (c == '\r') = false := beq_eq_false_iff_ne.2 h3
+   have e4 : (c == '\n') = false := beq_eq_false_iff_ne.2 h4
+   simp [e1, e2, e3, e4]))
+
+/-- the field pipeline: the quoting test brought to the model's `needsQuote`, then the option record taken apart -/
+macro "csv_field_eq" : tactic => `(tactic|
+  ((try simp (disch := char_cases) only [any_quote])
+   (try simp only [Nat.add_comm 1])))
+
 /-- the column loop's statements between the fetch of the value and `row_vec.push(value)` = `renderField` -/
 theorem gen_csv_field (o : Opts) (v : Text) : csv_field o.trim (wrapText o.wrap) v = renderField o v := by
   unfold csv_field renderField fieldValue quoted escape
+  csv_field_eq
   cases hw : o.wrap with
   | none =>
     cases ht : o.trim <;>
-      simp [wrapText, rt_trim_eq, replace_char_one, replace_str_one, rt_repeat_two, needsQuote, List.any_eq_true] <;>
-      (split <;> simp_all)
+      simp [wrapText, rt_trim_eq, replace_char_one, replace_str_one, rt_repeat_two] <;>
+      (repeat' split) <;> simp_all
   | some q =>
     cases ht : o.trim <;>
       simp [wrapText, rt_trim_eq, replace_char_one, replace_str_one, rt_repeat_two]
@@ -88,12 +112,12 @@ theorem gen_csv_column_body (g : Grid) (o : Opts) (row : Nat) (rv : List Text) (
     csv_text_loop_0_loop_0 o.trim (gridCell g) (wrapText o.wrap) row rv col =
       rv ++ [renderField o (g.get (row + 1) (col + 1))] := by
   unfold csv_text_loop_0_loop_0 renderField fieldValue quoted escape Grid.get gridCell
-  simp only [Nat.add_comm 1]
+  csv_field_eq
   cases hl : List.lookup (row + 1, col + 1) g <;> cases hw : o.wrap with
   | none =>
     cases ht : o.trim <;>
-      simp [wrapText, rt_trim_eq, replace_char_one, replace_str_one, rt_repeat_two, needsQuote, List.any_eq_true] <;>
-      (split <;> simp_all)
+      simp [wrapText, rt_trim_eq, replace_char_one, replace_str_one, rt_repeat_two] <;>
+      (repeat' split) <;> simp_all
   | some q =>
     cases ht : o.trim <;>
       simp [wrapText, rt_trim_eq, replace_char_one, replace_str_one, rt_repeat_two]
@@ -103,7 +127,8 @@ theorem gen_csv_row_body (g : Grid) (o : Opts) (mc : Nat) (data : Text) (row : N
     csv_text_loop_0 o.trim (gridCell g) (wrapText o.wrap) mc data row =
       data ++ renderRow o ((List.range mc).map fun col => g.get (row + 1) (col + 1)) := by
   unfold csv_text_loop_0 renderRow
-  simp only [gen_csv_column_body, foldl_push, rt_join_eq, List.nil_append, List.map_map, Function.comp_def, List.append_assoc]
+  simp only [gen_csv_column_body, foldl_push, rt_join_eq, List.nil_append, List.map_map, Function.comp_def, List.append_assoc] <;>
+    (try simp)
 
 /-- the string `data` built by `write_writer` as it is in the source — both loops, the fetch of every cell, the field
     pipeline, `join`, the line terminator — is the model's text, for every grid, every option record of the modelled
@@ -112,6 +137,6 @@ theorem gen_csv_text (g : Grid) (o : Opts) (mc mr : Nat) :
     csv_text o.trim (gridCell g) (wrapText o.wrap) mc mr =
       (List.range mr).flatMap fun row => renderRow o ((List.range mc).map fun col => g.get (row + 1) (col + 1)) := by
   unfold csv_text
-  simp only [gen_csv_row_body, foldl_append, List.nil_append]
+  simp only [gen_csv_row_body, foldl_append, List.nil_append] <;> (try simp)
 
 end Umya.Gen
